@@ -170,7 +170,8 @@ def run(ctx):
                 cok[pt] = a[0]
             if len(cok) != 4:
                 continue
-            pl = []
+            # first the passes that once broke something: 40000 rules with sort keys 0xFFFF (the sum of the sort keys overflowed an int)
+            pl = ["pass 0 2 %s %s" % (cok[2], passgen.build_pass([(0, 0xFFFF, b"", b"")] * 39999 + [(0, 1, b"", bytes([25, 49]))]).hex())] if bf == "Padauk.ttf" else []
             for k in range(1500 if q else 60000):
                 sb, pb = r.choice(pool)
                 if k % 6:
